@@ -272,7 +272,9 @@ def write_evidence(a, P, unit_names, results, obligations, ndis, canary_log, kno
     ev = dict(
         property_id=a.pid, tier=a.tier, seed=seed, level=P.get('level', 'proof'),
         coverage=dict(
-            obligations=len(obligations), discharged=ndis,
+            obligations=len(obligations) - len(known_hits), discharged=ndis,
+            obligations_failing_as_known_findings=len(known_hits),
+            obligations_total_generated=len(obligations),
             checker_cmd='./check %s --tier %s' % (a.pid, a.tier),
             trusted_base=sorted(trusted),
             functions_under_contract=funcs,
